@@ -6,6 +6,10 @@ V = os.path.dirname(os.path.dirname(os.path.abspath(__file__)))
 TECH = 'contract-based deductive verification: VCs generated from the real function ASTs by pyvc (sidecar contracts), discharged by z3 raced with cvc5'
 
 CLAIMED = {
+ 'C05': dict(
+   text="Deductive: the whole of pydoctor/mro.py is under contract and proved for all inputs: Dependency.head/tail, DependencyList.__init__ (fresh pairwise-distinct deques), __contains__, heads, tails, exhausted, remove (pointwise over the abstract view), _merge (result = the C3 merge of its argument lists, ValueError exactly when C3 has no solution; both loops with invariants; remaining-work invariant pre(result, c3_merge(view)) = c3_merge(lists)) and mro (result = the C3 linearisation over a pure base function, recursion by its own contract).",
+   note="Assumed: elements are truthy and getbases is pure; the C3 definition (axioms c3_def, drop_def, view_def) is the specification, validated against CPython's type().__mro__ on every hierarchy of <= 5 classes each run (bounded, an assumption check). Not yet under contract: model.Class._init_mro/compute_mro (cycle detection, reporting), Class.find, docsources, get_docstring, templatewriter.util/pages lookups - these are exercised only by the bounded native harness.",
+   ref='6 C05'),
  'C13': dict(
    text="Deductive: System.privacyClass (both precedence loops, cache), Documentable.privacyClass and its override Module.privacyClass (behavioural subtyping), isVisible (recursive, against the documented 'hidden containers hide their members'), isPrivate and qnmatch.translate (token-by-token against the documented glob grammar, both loops with invariants and variants) are verified for all objects, rule lists and patterns; the privacy postcondition is the documented precedence taken from the property statement (exact rule over pattern rules, last rule wins, underscore default).",
    note="Assumed: Python's re gives each emitted regex fragment its documented meaning and qnmatch() = re match of translate() (bounded-validated each run against an independent matcher over all patterns<=3 x names<=3); R5 of C02 (equal qualified names have equal short names) on cache hits; str.replace facts; parse_privacy_tuple is checked natively only (bounded). Known finding KF-C13-main-module (module named __main__) is excluded from Module.privacyClass's obligations explicitly and reported as KNOWN-FINDING.",
